@@ -106,6 +106,15 @@ CHECKS = {
             "bounded: words <= 6 / 7 units, all 2^(n-1) schedules; words outside the maximal-munch class only as pinned witnesses "
             "(finding F18); chart-level conformance (Earley.tla) is not part of this check",
             "TLC-enumerated feeding schedules and TLC-enumerated languages replayed into the real incremental parser"),
+    "C16": ("model_checking",
+            "Generators.tla (argument replacement re-generates the field, generated text is never edited; the 'only the last "
+            "argument' slip is shown to violate FieldIsGenerated) model-checked by TLC; every TLC-enumerated history of argument "
+            "replacements / attempted edits is replayed with DerivationTree.replace on a real tree and compared with the spec "
+            "state; real searches on specs whose generators log (symbol, arguments, return value): every generator-defined field "
+            "of every operator result, population member and solution is judged by Trace_Gen.tla",
+            "bounded: histories of 3 steps (2.5% sample quick, all thorough) from 27 initial states; 22 / 132 searches over 11 "
+            "constraint sets; constant, random, one/two-argument and nested (deterministic inner) generators; F31, F32 known",
+            "TLA+ model (TLC exhaustive) + TLC-enumerated histories replayed into real trees + TLC trace validation of logged generator calls"),
 }
 
 NOT_YET = "check not built yet in this round (work in progress, see DESIGN.md section 8); not claimed"
